@@ -112,10 +112,16 @@ struct World : public Server::Timer::ICallback
   {
     Cl& y = c[1 - x.id];
     if(reactDev >= cfg.reactBound || stopping) return;
-    int r = ch->choose(4);
+    int r = ch->choose(5);
     if(!r) return;
     ++reactDev; vf::hit("reactions");
-    static const char* names[] = {"", "suspends", "resumes", "removes"};
+    static const char* names[] = {"", "suspends", "resumes", "removes", ""};
+    if(r == 4)
+    { // the callback writes on its own client (a re-entrant write inside onWrite may build the next backlog)
+      note(vf::fmt("%s of client %d writes 3 bytes to its own client", cb, x.id));
+      doWrite(x, 3);
+      return;
+    }
     note(vf::fmt("%s of client %d %s client %d", cb, x.id, names[r], y.id));
     if(r == 1) suspend(y); else if(r == 2) resume(y); else remove(y);
   }
